@@ -925,19 +925,23 @@ func (cc *Conn) handleSpecialMessages(r *pool.Message) bool {
 		return true
 	}
 
-	// if waits for concrete message handler
-	if elem, ok := cc.midHandlerContainer.LoadAndDelete(r.MessageID()); ok {
-		elem.ReleaseMessage(cc)
-		resp := cc.AcquireMessage(cc.Context())
-		resp.SetToken(r.Token())
-		w := responsewriter.New(resp, cc, r.Options()...)
-		defer func() {
-			cc.ReleaseMessage(w.Message())
-		}()
-		elem.handler(w, r)
-		// we just confirmed that message was processed for cc.writeMessage
-		// the body of the message is need to be processed by the loopOverReceivedMessageQueue goroutine
-		return false
+	// if waits for concrete message handler. Only an acknowledgement or a reset refers to one of our
+	// message IDs; a confirmable or non-confirmable message carries an ID of the peer's choosing,
+	// which may equal one of ours without having anything to do with it.
+	if r.Type() == message.Acknowledgement || r.Type() == message.Reset {
+		if elem, ok := cc.midHandlerContainer.LoadAndDelete(r.MessageID()); ok {
+			elem.ReleaseMessage(cc)
+			resp := cc.AcquireMessage(cc.Context())
+			resp.SetToken(r.Token())
+			w := responsewriter.New(resp, cc, r.Options()...)
+			defer func() {
+				cc.ReleaseMessage(w.Message())
+			}()
+			elem.handler(w, r)
+			// we just confirmed that message was processed for cc.writeMessage
+			// the body of the message is need to be processed by the loopOverReceivedMessageQueue goroutine
+			return false
+		}
 	}
 	// separate message
 	if r.IsSeparateMessage() {
